@@ -1233,6 +1233,14 @@ class Module(ABC):
                 np.concatenate([self.base.groups[group_name], self._nodes_in_view])
             )
 
+    def _edge_inds_within_type(self) -> np.ndarray:
+        """Return, for every edge, its position among the edges of its synapse type.
+
+        Recordings, clamps and trainables refer to synapses by their global edge index,
+        but synaptic states and parameters are stored per synapse type."""
+        ranks = self.base.edges.groupby("type").rank()["global_edge_index"]
+        return (ranks.astype(int) - 1).to_numpy()
+
     def _get_state_names(self) -> Tuple[List, List]:
         """Collect all recordable / clampable states in the membrane and synapses.
 
@@ -1745,8 +1753,10 @@ class Module(ABC):
         state_names = all_externals if state_name is None else [state_name]
         for state_name in state_names:
             if state_name in self.externals:
+                is_edge_state = state_name in self.base.synapse_state_names
                 keep_inds = ~np.isin(
-                    self.base.external_inds[state_name], self._nodes_in_view
+                    self.base.external_inds[state_name],
+                    self._edges_in_view if is_edge_state else self._nodes_in_view,
                 )
                 base_exts = self.base.externals
                 base_exts_inds = self.base.external_inds
@@ -1889,7 +1899,11 @@ class Module(ABC):
         # Clamp for channels and synapses.
         for key in externals.keys():
             if key not in ["i", "v"]:
-                u[key] = u[key].at[external_inds[key]].set(externals[key])
+                inds = external_inds[key]
+                if key in self.synapse_state_names:
+                    # Clamps of synaptic states are indexed by the global edge index.
+                    inds = jnp.asarray(self._edge_inds_within_type())[inds]
+                u[key] = u[key].at[inds].set(externals[key])
 
         # Voltage steps.
         cm = params["capacitance"]  # Abbreviation.
@@ -2511,11 +2525,17 @@ class View(Module):
         self._set_synapses_in_view(pointer)
 
         ptr_recs = pointer.recordings
-        self.recordings = (
-            pd.DataFrame()
-            if ptr_recs.empty
-            else ptr_recs.loc[ptr_recs["rec_index"].isin(self._comps_in_view)]
-        )
+        if ptr_recs.empty:
+            self.recordings = pd.DataFrame()
+        else:
+            # Recordings of synaptic states refer to edges, all others to compartments.
+            is_edge_state = ptr_recs["state"].isin(self.base.synapse_state_names)
+            rec_in_view = np.where(
+                is_edge_state,
+                ptr_recs["rec_index"].isin(self._edges_in_view),
+                ptr_recs["rec_index"].isin(self._comps_in_view),
+            )
+            self.recordings = ptr_recs.loc[rec_in_view]
 
         self.channels = self._channels_in_view(pointer)
         self.membrane_current_names = [c.current_name for c in self.channels]
@@ -2617,7 +2637,10 @@ class View(Module):
         for (name, inds), data in zip(
             self.base.external_inds.items(), self.base.externals.values()
         ):
-            in_view = np.isin(inds, self._nodes_in_view)
+            is_edge_state = name in self.base.synapse_state_names
+            in_view = np.isin(
+                inds, self._edges_in_view if is_edge_state else self._nodes_in_view
+            )
             inds_in_view = inds[in_view]
             if len(inds_in_view) > 0:
                 self.externals[name] = data[in_view]
